@@ -147,15 +147,22 @@ def handle (j : Json) : Json :=
     | some "run" =>
       match parseEl (getD j "el"), intList? (getD j "xs") with
       | some t, some xs =>
+        let e := testEl t
+        let r1 := runFR e c [] xs
         -- "spec": the right-hand side of theorem `run_blocks` (block specification), compared as well
-        Json.mkObj [("r", ofOuts (runFR (testEl t) c [] xs).1),
-          ("spec", ofOuts (specBlocks (blockOf (testEl t) c) (testEl t).reset c.bufsize c.reset c.yor []
-            (chunks c.bufsize xs))),
+        let base : List (String × Json) := [("r", ofOuts r1.1),
+          ("spec", ofOuts (specBlocks (blockOf e c) e.reset c.bufsize c.reset c.yor [] (chunks c.bufsize xs))),
           -- the right-hand side of theorem `seq_run_blocks` (FillRequestSeq: `_run_fill_compute`)
           ("seqspec", ofOuts (specBlocks
             (fun s b => ((postOf t.post) (blockFill (baseEl t) s (b.flatMap (preOf t.pre))).1,
                          (blockFill (baseEl t) s (b.flatMap (preOf t.pre))).2))
             (baseEl t).reset c.bufsize c.reset c.yor [] (chunks c.bufsize xs)))]
+        -- "xs2": the same adapter runs a second flow, the element in the state the first run left
+        match intList? (getD j "xs2") with
+        | some xs2 =>
+          Json.mkObj (base ++ [("r2", ofOuts (runFR e c r1.2 xs2).1),
+            ("spec2", ofOuts (specBlocks (blockOf e c) e.reset c.bufsize c.reset c.yor r1.2 (chunks c.bufsize xs2)))])
+        | none => Json.mkObj base
       | _, _ => err "bad run args"
     | some "ops" =>
       match parseEl (getD j "el"), parseOps (getD j "ops") with
